@@ -18,6 +18,7 @@ import Flamego.Driver.Noop
 import Flamego.Driver.Dsl
 import Flamego.Driver.Parser
 import Flamego.Driver.App
+import Flamego.Driver.ConcReq
 open Flamego Flamego.Driver
 
 def dispatch (o : Oracle) (kind : String) (args : List String) (body : List (List String)) : List String :=
@@ -35,6 +36,7 @@ def dispatch (o : Oracle) (kind : String) (args : List String) (body : List (Lis
   | "render" => Render.session args body
   | "chain" => Chain.session args body
   | "noop" => Noop.session args body
+  | "concreq" => Flamego.Driver.ConcReq.session args body
   | "dsl" => Dsl.session o.engine args body
   | "parser" => Parser.session args body
   | "app" => Flamego.Driver.App.session o.engine args body
